@@ -113,12 +113,12 @@ pub fn dzmmap(
     // (only where mmtk-core handles the failure -- heap spaces, side metadata and the component
     // simulation's own mapper; other callers treat a failing mmap as an assertion by design)
     #[cfg(mmtk_verif)]
-    if matches!(
-        annotation,
-        MmapAnnotation::Space { .. }
-            | MmapAnnotation::SideMeta { .. }
-            | MmapAnnotation::Misc { name: "verif" }
-    ) && crate::util::verif::rt::fault(crate::util::verif::rt::fault::MMAP, size)
+    if (matches!(annotation, MmapAnnotation::Misc { name: "verif" })
+        || (matches!(
+            annotation,
+            MmapAnnotation::Space { .. } | MmapAnnotation::SideMeta { .. }
+        ) && !matches!(strategy.prot, MmapProtection::NoAccess)))
+        && crate::util::verif::rt::fault(crate::util::verif::rt::fault::MMAP, size)
     {
         return Err(MmapError::new(
             start,
